@@ -25,9 +25,9 @@ func (c06) ID() string { return "C06" }
 
 func (c06) NumCases(tier string) int {
 	if tier == "thorough" {
-		return 3000000/c06Block + len(c06Hostile)
+		return 3000000/c06Block + len(c06Hostile) + len(c06Shared)
 	}
-	return 120000/c06Block + len(c06Hostile)
+	return 120000/c06Block + len(c06Hostile) + len(c06Shared)
 }
 
 const c06Block = 10
@@ -48,7 +48,8 @@ func (c06) Gates(tier string, m map[string]int64) []rt.Gate {
 		rt.GateMin("executions ending in an execution error", m, "end:execerr", 100),
 		rt.GateMin("executions ending in success", m, "end:ok", 1000),
 		rt.GateMin("errors rendered after BindQuery", m, "rendered", 1000),
-		rt.GateMin("hostile corpus entries run", m, "hostile_run", int64(len(c06Hostile))),
+		rt.GateMin("hostile corpus entries run", m, "hostile_run", int64(len(c06Hostile)+len(c06Shared))),
+		rt.GateMin("statements with a field definition shared by 2^30 or more expansions run", m, "shared_definition_chains_run", int64(len(c06Shared))),
 		rt.GateMin("mutated statements run", m, "mutants_run", 1000),
 		rt.GateMin("coverage-guided stage: executions under the monitors", m, "fuzz_execs", 100000),
 		rt.GateMin("coverage-guided stage: corpus entries kept for reaching new code", m, "fuzz_corpus_entries", 300),
@@ -224,6 +225,34 @@ var c06Hostile = func() []string {
 		strings.Repeat(" ", 80) + "select * where val = 1",
 		strings.Repeat(" ", 200) + "select * where key = 'a' & nosuch(key) = 1" + strings.Repeat(" ", 200),
 		"select * where key ^= 'k' & value ^= 'v' & key != 'zzzzzzzzzzzzzzzzzzzzzzzzzzzzzzzzzzzzzzzzzzzzzzzzzzzzzzzzzzzzzzzzzzzzzzzzzzzzzzzzzzzzzzzzzzzzzzzzzzzzzzzzzzzzz' & int(value) / (strlen(key) - strlen(key)) > 1",
+		// words that strconv.ParseFloat accepts are FLOAT literals: nan, inf, infinity, exponents, hex floats
+		"select quantile(value, nan) where true",
+		"select quantile(int(value), nan), count(1) where key ^= 'k'",
+		"select quantile(int(value), inf) where true",
+		"select quantile(int(value), 0 - inf) where true",
+		"select quantile(int(value), nan * 0) where true",
+		"select quantile(int(value), inf - inf) where true",
+		"select quantile(float(value), 0x1p-1) where true",
+		"select key, quantile(int(value), nan) where true group by key order by key",
+		"select nan, inf, infinity, 0 - inf, nan + 1, inf / inf, inf * 0, 1 / inf, int(nan), int(inf), str(nan) where true",
+		"select key where int(value) > nan | float(value) < inf | nan = nan | nan between nan and nan",
+		"select key where int(value) between nan and inf",
+		"select key where nan in (nan, inf) | inf in list(inf, nan)",
+		"select * where true limit nan",
+		"select * where true limit inf, nan",
+		"select * where true limit 1e3",
+		"select substr(key, nan, inf), substr(value, inf, nan), substr(key, 0 - inf, 1e3) where true",
+		"select split(value, ',')[nan], split(value, ',')[inf], json(value)['list'][nan] where true",
+		"select list(nan, inf)[nan], ilist(nan, inf), flist(nan, inf, 1e308 * 10) where true",
+		"select l2_distance(list(nan, inf), list(inf, nan)), cosine_distance(list(nan, 1), list(inf, 1)) where true",
+		"select sum(nan), avg(inf), min(nan), max(nan), sum(inf - inf), avg(nan), json_arrayagg(nan), group_concat(inf, nan) where true",
+		"select key, int(value) / nan as a, int(value) / inf as b where true order by a, b",
+		"select key, float(value) * nan as a where true order by a desc limit inf",
+		"select count(1) where true group by nan, inf",
+		"put (nan, inf)",
+		"put ('k' + nan, str(inf))",
+		"remove nan, inf",
+		"delete where key = nan",
 		"\x00", "\xff\xfe", "select \x00 where true", "select * where key = '\xff'", "select * where key = 'a\x00b'",
 		"", " ", "    ",
 	}
@@ -263,7 +292,7 @@ func c06Store(r *rt.Rand, fam string) []refstore.Pair {
 
 // tokens for single-token edits
 var c06Tokens = []string{"select", "where", "key", "value", "limit", "order", "by", "asc", "desc", "true", "false", "as", "group", "in", "between", "put", "remove", "and", "or", "delete",
-	"=", "!=", "^=", "~=", ">", ">=", "<", "<=", "+", "-", "*", "/", "!", "&", "|", "(", ")", "[", "]", ",", ";", "'a'", "''", "1", "0", "1.5", "x", "f1", "upper", "int", "count", "sum", "split", "json", "list", "'", "\"", "`"}
+	"=", "!=", "^=", "~=", ">", ">=", "<", "<=", "+", "-", "*", "/", "!", "&", "|", "(", ")", "[", "]", ",", ";", "'a'", "''", "1", "0", "1.5", "nan", "inf", "infinity", "1e5", "0x1p4", "1e308", "x", "f1", "upper", "int", "count", "sum", "split", "json", "list", "'", "\"", "`"}
 
 func c06Tokenize(q string) []string {
 	toks := kvql.NewLexer(q).Split()
@@ -329,8 +358,52 @@ func c06Mutate(r *rt.Rand, q string) string {
 	}
 }
 
+// c06Shared are statements whose fields refer to earlier fields by name several times, so the
+// expanded expression is exponentially larger than the text. With the field cache (the default)
+// every definition is evaluated once per row; without it the work is the size of the expansion,
+// by definition of an uncached name, so these run with the cache on only.
+var c06Shared = func() []string {
+	chain := func(n int, first, step string) string {
+		var b strings.Builder
+		b.WriteString("select " + first + " as a0")
+		for i := 1; i <= n; i++ {
+			b.WriteString(", " + strings.ReplaceAll(step, "$", fmt.Sprintf("a%d", i-1)) + fmt.Sprintf(" as a%d", i))
+		}
+		return b.String()
+	}
+	var h []string
+	for _, n := range []int{30, 45, 60} {
+		last := fmt.Sprintf("a%d", n)
+		h = append(h,
+			chain(n, "strlen(key)", "$+$")+" where key ^= 'k'",
+			chain(n, "strlen(key)", "$+$")+" where true order by "+last+" limit 3",
+			chain(n, "strlen(key)", "$+$")+" where "+last+" >= 0 | "+last+" < 0",
+			chain(n, "int(value)", "$*$+$")+" where true",
+			chain(n, "key", "substr(upper($)+lower($), 1, 4)")+" where key ^= 'k' limit 2",
+			chain(n, "strlen(key)", "$+$")+", count(1) where true group by "+last,
+			chain(n, "strlen(key)", "nosuch($)+$")+" where true",
+			chain(n, "strlen(key)", "$+upper($)")+" where true",
+			chain(n, "float(value)", "l2_distance(list($,$), list($,$))")+" where true",
+			chain(n, "(key = 'k01')", "$ & $ | $")+" where "+last,
+		)
+	}
+	return h
+}()
+
 func (k c06) Run(c *rt.Ctx) {
 	r := c.R
+	if c.Case >= len(c06Hostile) && c.Case < len(c06Hostile)+len(c06Shared) {
+		q := c06Shared[c.Case-len(c06Hostile)]
+		c.Rec.Inc("hostile_run")
+		c.Rec.Inc("shared_definition_chains_run")
+		for _, fam := range []string{"empty", gen.FMixed, "extreme", gen.FNum} {
+			ps := c06Store(r, fam)
+			for _, m := range []drive.Mode{{Batch: false, Size: 3, Cache: true}, {Batch: true, Size: 3, Cache: true}, {Batch: true, Size: 32, Cache: true}} {
+				k.exec(c, q, ps, fam, m, "hostile")
+			}
+		}
+		return
+	}
 	if c.Case < len(c06Hostile) {
 		q := c06Hostile[c.Case]
 		c.Rec.Inc("hostile_run")
